@@ -66,9 +66,9 @@ Example C16_nonvacuous_found :
   exists o nrm2 lg stp t s,
     fst (find_collapse QN o nrm2 lg stp 0 1%Q 0%Q 1%Q 1%Q (1#4)%Q (1#2)%Q) = Some (t, s).
 Proof.
-  exists (mkOpts QN 5 (1#1000)%Q (1#10)%Q (1#1000)%Q).
+  exists (mkOpts QN 5 (1#1000)%Q (3#4)%Q (1#1000)%Q).
   exists (fun _ t => (1 - (3#4) * t)%Q), (fun x => (x - 1)%Q), (fun _ _ g => g).
-  eexists. eexists. vm_compute. reflexivity.
+  exists (1#3)%Q, (1#3)%Q. vm_compute. reflexivity.
 Qed.
 
 (* ---------------------------------------------------------------------
